@@ -1,10 +1,12 @@
 package scen
 
 import (
+	"fmt"
 	"math/big"
 	"math/rand"
 
 	"cosmossdk.io/math"
+	aptypes "github.com/elys-network/elys/x/assetprofile/types"
 	lptypes "github.com/elys-network/elys/x/leveragelp/types"
 	sstypes "github.com/elys-network/elys/x/stablestake/types"
 
@@ -152,6 +154,23 @@ func init() {
 			NewChaos(c, w, g).Run(n/2, g.StdDt)
 		} else {
 			g.Free(n/2, g.StdDt)
+		}
+		// governance rewrites the registry entry of the vault's share token (instances in which it owns
+		// the entry): committing disabled — a deposit cannot be booked and must be refused whole —
+		// then withdrawing disabled, then both restored; lenders bond and unbond through each state
+		if e, found := w.App.AssetprofileKeeper.GetEntry(w.ReadCtx(), "stablestake/share"); found && e.Authority == w.Gov && !w.Dead {
+			for _, st := range [][2]bool{{false, true}, {true, false}, {e.CommitEnabled, e.WithdrawEnabled}} {
+				m := &aptypes.MsgUpdateEntry{Authority: w.Gov, BaseDenom: e.BaseDenom, Denom: e.Denom, Decimals: e.Decimals, DisplayName: e.DisplayName, CommitEnabled: st[0], WithdrawEnabled: st[1]}
+				if w.GovExec("share entry", m) {
+					c.Ev(fmt.Sprintf("share_entry_rewritten/commit=%v/withdraw=%v", st[0], st[1]))
+				}
+				w.Step(5, w.Tx(u[3], &sstypes.MsgBond{Creator: u[3].S(), Amount: math.NewInt(S/300 + 7)}), w.Tx(u[4], &sstypes.MsgBond{Creator: u[4].S(), Amount: math.NewInt(1)}))
+				cm := w.App.CommitmentKeeper.GetCommitments(w.ReadCtx(), u[1].Addr)
+				if have := cm.GetCommittedAmountForDenom("stablestake/share"); have.IsPositive() {
+					w.Step(5, w.Tx(u[1], &sstypes.MsgUnbond{Creator: u[1].S(), Amount: have.QuoRaw(50).AddRaw(1)}))
+				}
+				g.Free(3, nil)
+			}
 		}
 		// crash: liquidations with a shortfall; then lenders try to withdraw more than the cash
 		w.Prices["ATOM"] = w.Prices["ATOM"].Mul(chain.Dec("0.45"))
